@@ -31,6 +31,7 @@ def d4(trait_of):
 # hand-made batches for directed cases (cppcorpus.CppCorpus(extra=...)): elements of a large fixed wire size, the enum
 # sanitizer switched on (the generic streams run without it: see D61), buffers that do not start on an aligned address
 DIRECTED_BIG = ('struct BigItem { u64 s[2048]; };\nstruct BigItems { BigItem items<>; };\nstruct BigWords { u16 n; u64 w<@n>; };\n', 'dbig', None)
+DIRECTED_BIGDYN = ('struct DItem { u64 s[8192]; u8 t<>; };\nstruct DMsg { DItem items<>; };\n', 'dbigdyn', None)
 DIRECTED_ENUM = ('enum DE { DE_A = 0, DE_B = 1 };\nunion DU { 0: u8 a; 1: u32 b; };\nstruct DM { DE e; u32 z; };\n', 'denum',
                  [f for f in cpp_full.SAN_FLAGS if f != '-fno-sanitize=enum'])
 DIRECTED_ALIGN = ('struct DA { u8 n; u8 x<@n>; u32 y; };\nstruct DB { bytes a<>; u32 b; };\nstruct DC { u16 a; u64 b; };\n', 'dalign', None)
@@ -75,6 +76,8 @@ def classify_directed(case, detail):
         return 'D61'
     if case.get('directed') == 'dalign' and (case.get('off') or case.get('eoff')):
         return 'D62'
+    if case.get('directed') == 'dbigdyn' and 'bytes of memory' in detail.get('what', ''):
+        return 'D122'     # the counter guard knows no minimal wire size of an element of dynamic size
     return None
 
 
@@ -154,6 +157,14 @@ def run_c03(tier):
                     chk.property_violation(casej, {'what': 'C++ encode of the decoded object differs from the canonical bytes', 'cpp_bytes': o.get(key)}, d4(tr))
                 elif e == 'native' and o.get('enc_native') != o.get('enc_little'):
                     chk.property_violation(casej, {'what': "'native' differs from the host order (little)", 'cpp': o})
+                elif e in ('<', 'native') and o.get('ptr_bytes') is not None and o['ptr_bytes'] != data and not o.get('overrun'):
+                    # encode(void*) into a buffer pre-filled with 0xAA: every byte of the canonical encoding has to be written
+                    pb = o['ptr_bytes']
+                    only_gaps = len(pb) == len(data) and all(pb[i:i + 2] == data[i:i + 2] or (pb[i:i + 2] == 'aa' and data[i:i + 2] == '00')
+                                                             for i in range(0, len(data), 2))
+                    chk.property_violation(casej, {'what': 'encode(void*) into a buffer that is not zero-filled does not give the canonical bytes',
+                                                   'ptr_bytes (buffer pre-filled with aa)': pb, 'only_unwritten_padding': only_gaps},
+                                           (lambda cc, dd: 'D121' if dd.get('only_unwritten_padding') else None) if not tr.get(c.tid, {}).get('opt_misaligned') else d4(tr))
             # correspondence with the model of the generated code
             chk.corr_compared += 1
             impl_outcome = 'fault' if o.get('fault') else 'exception' if o.get('exception') else 'accepted' if o.get('ok') else 'rejected'
@@ -367,7 +378,7 @@ def run_c07(tier):
                 'in an exact-size heap block under ASan/UBSan with an allocation-recording operator new; a case = (type, bytes, byte order); '
                 'non-trivial = not the untouched valid encoding. Observed: sanitizer fault, C++ exception, returned bool, re-encoded length, bytes requested.')
     chk.lean = core.lean_obligations('C07', thorough=(tier == 'thorough'))
-    corpus = CppCorpus(chk, chk.scale(5, 40), extra=[DIRECTED_BIG, DIRECTED_ENUM, DIRECTED_ALIGN])
+    corpus = CppCorpus(chk, chk.scale(5, 40), extra=[DIRECTED_BIG, DIRECTED_BIGDYN, DIRECTED_ENUM, DIRECTED_ALIGN])
     try:
         corpus.report_build_errors()
         tr = traits(corpus)
@@ -448,6 +459,8 @@ def directed_c07(chk, corpus):
         ('BigItems', '<', le(2) + bytes(4) + bytes(16384), 0, 'rejected'),
         ('BigWords', '<', le(4000, 2) + bytes(6) + bytes(8 * 3999), 0, 'rejected'),
         ('BigWords', '<', le(3, 2) + bytes(6) + bytes(24), 0, 'accepted'),
+        # elements of dynamic size with a large fixed part: the guard can only assume one byte per element (known finding D122)
+        ('DMsg', '<', le(1028) + bytes(4) + bytes(1024), 0, 'rejected'),
         # corrupted enum and discriminator values under -fsanitize=enum (known finding D61)
         ('DU', '<', bytes.fromhex('ffffffff05000000'), 0, 'rejected'),
         ('DU', '<', bytes.fromhex('0100000005000000'), 0, 'accepted'),
